@@ -30,6 +30,12 @@ CHECKS = {
  "C04": dict(cat="exploration", sec="5.4", tech="same bounded exhaustive enumeration; oracle = round trip through the library and through an independent encoder's bytes",
    text="Same enumeration as C03 with two oracles: decode(encode(v)) equals v field by field, and the independent encoder's canonical bytes are accepted, decode to v and re-encode to the same bytes (the half the library cannot satisfy by being symmetric with itself).",
    note="normalisation: unused bits of a BIT STRING's last octet are masked before comparison (DESIGN.md 5.4); values outside the root of an extensible constraint are outside the claim"),
+ "C13": dict(cat="exploration", sec="5.13", tech="exhaustive enumeration of argument vectors (default + every single deviation, products for the wrappers, NG-Setup-then-message histories) decoded by an independent reference decoder",
+   text="All 14 build-and-encode wrappers and 50 library builders are called over boundary alphabets of every identifier, NAS-PDU lengths, addresses, gNB id lengths 22..32 and announced PLMNs (as a two-step history: NG Setup build, then the message); every encoding is decoded by the independent refper decoder and by the library, and class, procedure code, carried arguments, PLMN, mandatory IEs and criticalities are compared with values typed from TS 38.413; out-of-range identifiers must be refused.",
+   note="procedure codes / IE ids / criticalities typed from the specification by hand; builders are test fixtures with package-level PLMN state (sequential sweep)"),
+ "C14": dict(cat="exploration", sec="5.14", tech="exhaustive enumeration of all short octet strings and of all single mutations of reference encodings, each decoded in a resource-limited shard process",
+   text="Every octet string of length <=2 (<=3 in thorough) and, for a reference encoding of every message type, every prefix, every single-octet substitution, every bit flip and adversarial two-octet length forms are decoded by ngap.Decoder in shard processes with an address-space limit and a watchdog: no panic, allocation below 64 MiB per call, return within a 10 s horizon.",
+   note="coverage-guided fuzzing (named in the property's quantifier) is another technique family and not used; allocation measured per batch and per call on suspicion"),
 }
 
 NOT_YET = {}
